@@ -85,6 +85,14 @@ class C01(Prop):
                                                        "{% t - 1. # %}", "{{ - 1. }}", "`> + #`"])
             if r.random() < 0.4:
                 words[r.randint(0, n - 2)] = r.choice(SENT_END)
+            # two fence look-alikes in one paragraph pair up as the delimiters of a code span (and a sentence end between them is
+            # the listed finding KF-C06-semantic-sentence-inside-unit): one per paragraph
+            seen_bt = False
+            for k_, w_ in enumerate(words):
+                if "`" in w_ and not (w_.startswith("`") and w_.endswith("`") and len(w_) > 2 and w_.count("`") % 2 == 0):
+                    if seen_bt:
+                        words[k_] = "word"
+                    seen_bt = True
             if not words[0][:1].isalpha():
                 words[0] = "Start"
             ii, si = r.choice(CONTAINERS)
